@@ -15,6 +15,7 @@ RULE = ('cases: up to 10 immediately-available submissions (a quarter of the cas
         'a gap in [T/2, T); distinct by case hash')
 ASSUMPTIONS = ['no forced flush (wait(cancel=True)) in these programs', 'exact ties are not judged (margin 1/64 s)',
                'virtual-time loop faithful (selftest)']
+CORPUS_PREEMPTIONS = {}
 BUDGET = {'quick': 300, 'thorough': 8000}
 ESSENTIAL = ['nontrivial', 'isolated-burst-judged']
 valid = B.valid
